@@ -163,7 +163,8 @@ def run(rep, tier):
     lp = loops[0]
     cond_fin = any(s.get('ref', {}).get('name') == 'USCXML_FINISHED' for s in sub(lp['c'][0])) and any(s.get('op') == '!=' for s in sub(lp['c'][0]))
     after_loop = not any(x is enq[0] for x in sub(lp))
-    gate = any(a['k'] == 'IfStmt' and any(s.get('ref', {}).get('name') == '_isActive' for s in sub(a['c'][0])) for a in run_.ancestors(enq[0]))
+    from ._skel import guarded_by
+    gate = guarded_by(run_, gr, enq[0], ('_isActive',))
     names_done = any(s['k'] == 'StringLiteral' and s.get('str', '').startswith('done.invoke') for s in run_.walk())
     rep.check(cond_fin and after_loop and gate and names_done, 'R11.3', 'run|done.invoke', locstr(enq[0]), 'loop runs until FINISHED: %s; done.invoke enqueued after the loop: %s; under the _isActive test: %s' % (cond_fin, after_loop, gate))
     stop = fb.fn(INV + '::stop')
@@ -176,7 +177,7 @@ def run(rep, tier):
     else:
         o1 = gs.dominates(clr[0]['id'], can[0]['id'])
         o2 = gs.dominates(can[0]['id'], joi[0]['id'])
-        thr_guard = any(a['k'] == 'IfStmt' and any(s.get('ref', {}).get('name') == '_thread' for s in sub(a['c'][0])) for a in stop.ancestors(joi[0]))
+        thr_guard = guarded_by(stop, gs, joi[0], ('_thread',))
         rep.check(o1 and o2 and thr_guard, 'R11.3', 'stop|order', stop.where(), '_isActive=false dominates cancel: %s; cancel dominates join: %s; join under the _thread test: %s' % (o1, o2, thr_guard))
     un = fb.fn(INV + '::uninvoke')
     rep.check(bool(calls(un, 'USCXMLInvoker::stop')), 'R11.3', 'uninvoke->stop', un.where(), 'uninvoke() stops the child')
